@@ -141,6 +141,10 @@ func c19GenCommon(g *Gen, sc *Scn) {
 	sc.SetInt("licence", b2i(g.Bool(0.75)))
 	sc.SetInt("late", b2i(g.Bool(0.25)))
 	sc.SetInt("unsub", b2i(g.Bool(0.35)))
+	if !conc && sc.Int("subs", 1) >= 2 && g.Bool(0.4) {
+		sc.SetInt("toggle", 1)
+		sc.SetInt("late", 0)
+	}
 }
 
 const (
@@ -163,6 +167,9 @@ func init() {
 			sc.Sources = []SrcSpec{c19Source(g)}
 			script := sc.Sources[0].Script
 			arity := g.PickInt(1, 1, 2, 2, 2, 3, 3, 4, 4, 5, 6)
+			if g.Bool(0.3) {
+				arity = g.Range(7, c19MaxArity) // every arity is a separate hand-written function in the plugin
+			}
 			names := c19Stages()
 			for i := 0; i < arity; i++ {
 				addStage(g, sc, names[g.Intn(len(names))], nvalues(script), "")
@@ -287,7 +294,7 @@ func c19Traces(p *c19Pipe) string {
 
 // c19Drive subscribes every pipeline `subs` times (sequentially or concurrently), runs to quiescence and
 // optionally unsubscribes everything. It returns false when the step cap was hit (no judgement then).
-func c19Drive(e *Env, pipes []*c19Pipe) bool {
+func c19Drive(e *Env, pipes []*c19Pipe, between ...func(i int)) bool {
 	sc := e.Sc
 	subs := sc.Int("subs", 1)
 	if subs < 1 {
@@ -308,6 +315,9 @@ func c19Drive(e *Env, pipes []*c19Pipe) bool {
 			e.SettleFor(dur(20)) // longer than any script: subscription i is over before i+1 starts
 			if e.K.Capped() {
 				return false
+			}
+			for _, f := range between {
+				f(i)
 			}
 		}
 	}
@@ -434,7 +444,7 @@ const c19Prefix = "verif_c19_"
 func runC19Pipe(e *Env) {
 	sc := e.Sc
 	n := len(sc.Stages)
-	if n < 1 || n > 6 || len(sc.Sources) < 1 || !c19SourceOK(sc.Sources[0]) {
+	if n < 1 || n > c19MaxArity || len(sc.Sources) < 1 || !c19SourceOK(sc.Sources[0]) {
 		return // not a scenario of this family (shrinking candidate)
 	}
 	for _, st := range sc.Stages {
@@ -471,6 +481,8 @@ func runC19Pipe(e *Env) {
 			plain.obs = ro.Pipe5(src, ops[0], ops[1], ops[2], ops[3], ops[4])
 		case 6:
 			plain.obs = ro.Pipe6(src, ops[0], ops[1], ops[2], ops[3], ops[4], ops[5])
+		default:
+			plain.obs = c19PlainPipeN(n, src, ops)
 		}
 	}
 
@@ -525,6 +537,8 @@ func runC19Pipe(e *Env) {
 			instr.obs, collector = roprometheus.Pipe5(cfg, src, ops[0], ops[1], ops[2], ops[3], ops[4])
 		case 6:
 			instr.obs, collector = roprometheus.Pipe6(cfg, src, ops[0], ops[1], ops[2], ops[3], ops[4], ops[5])
+		default:
+			instr.obs, collector = c19InstrPipeN(n, cfg, src, ops)
 		}
 	}
 	if collector == nil {
@@ -542,7 +556,18 @@ func runC19Pipe(e *Env) {
 		e.Probe("licence-activated-after-construction")
 	}
 	pipes := []*c19Pipe{plain, probe, instr}
-	if !c19Drive(e, pipes) {
+	// "toggle": the licence state flips between the first and the second (sequential) subscription of the
+	// same pipeline: the licence is consulted at each subscription, so exactly the subscriptions made
+	// while it was active are counted
+	toggled := sc.Int("toggle", 0) == 1 && sc.Int("conc", 0) == 0 && sc.Int("subs", 1) >= 2
+	var snapCnt, snapStamped []int
+	if !c19Drive(e, pipes, func(i int) {
+		if toggled && i == 0 {
+			snapCnt, snapStamped = append([]int(nil), cnt...), append([]int(nil), stamped...)
+			roprometheus.VerifSetLicenseBypass(!licence)
+			e.Probe("licence-toggled-between-subscriptions")
+		}
+	}) {
 		return
 	}
 	e.Probe(fmt.Sprintf("arity%d", n))
@@ -567,6 +592,10 @@ func runC19Pipe(e *Env) {
 		e.Note("C19: ro.Tap probes changed the trace: " + c19Traces(plain) + " vs " + c19Traces(probe))
 	}
 
+	if toggled {
+		// the export itself is read with the licence active ("when it is active the exported counters equal ...")
+		roprometheus.VerifSetLicenseBypass(true)
+	}
 	got, err := c19Gather(reg)
 	if err != nil {
 		e.Violate("C19", "gather-failed", fmt.Sprintf("licence=%v: Registry.Gather failed on the collector of Pipe%d: %v", licence, n, err))
@@ -574,7 +603,21 @@ func runC19Pipe(e *Env) {
 	}
 	ctxInfo := fmt.Sprintf("subscriptions=%d concurrent=%v; probe counts in=%d per-stage-out=%v (with a context descending from a source value: %v); %s; %s; gathered %s", len(instr.hs), sc.Int("conc", 0) == 1, cnt[0], cnt[1:], stamped[1:], c19Traces(plain), c19Traces(instr), got.dump())
 
-	if !licence {
+	// what happened while the licence was active
+	cntOn, stampedOn, subsOn := cnt, stamped, len(instr.hs)
+	if toggled {
+		if licence {
+			cntOn, stampedOn, subsOn = snapCnt, snapStamped, 1
+		} else {
+			cntOn, stampedOn = make([]int, len(cnt)), make([]int, len(stamped))
+			for i := range cnt {
+				cntOn[i], stampedOn[i] = cnt[i]-snapCnt[i], stamped[i]-snapStamped[i]
+			}
+			subsOn = len(instr.hs) - 1
+		}
+		ctxInfo = fmt.Sprintf("licence %v during subscription #1, %v afterwards; expected in=%d per-stage-out=%v over %d licensed subscription(s); ", licence, !licence, cntOn[0], cntOn[1:], subsOn) + ctxInfo
+	}
+	if !licence && !toggled {
 		// oracle 3: nothing is counted without a licence
 		for _, k := range got.keys() {
 			if v := got.val[k]; v != 0 {
@@ -596,21 +639,21 @@ func runC19Pipe(e *Env) {
 			e.Violate("C19", clause, fmt.Sprintf("%s = %v, expected %d (%s); %s", key, v, exp, what, ctxInfo))
 		}
 	}
-	want("subscriptions-total", c19Prefix+"ro_subscriptions_total", len(instr.hs), "one per Subscribe call")
-	want("notification-in", c19Prefix+"ro_notification_in_total", cnt[0], "values emitted by the source into the chain")
-	want("notification-out", c19Prefix+"ro_notification_out_total", cnt[n], "values emitted by the chain")
-	want("lag-count", c19Prefix+"ro_notification_lag_seconds", cnt[0], "one lag observation per source value")
+	want("subscriptions-total", c19Prefix+"ro_subscriptions_total", subsOn, "one per Subscribe call made while the licence was active")
+	want("notification-in", c19Prefix+"ro_notification_in_total", cntOn[0], "values emitted by the source into the chain")
+	want("notification-out", c19Prefix+"ro_notification_out_total", cntOn[n], "values emitted by the chain")
+	want("lag-count", c19Prefix+"ro_notification_lag_seconds", cntOn[0], "one lag observation per source value")
 	for k := 0; k < n; k++ {
 		key := fmt.Sprintf("%sro_operator_processing_time_seconds_total#%d", c19Prefix, k)
 		clause := "proc-time-count"
 		what := fmt.Sprintf("one observation per value leaving operator %d (%s)", k, sc.Stages[k].Op)
-		if v := got.val[key]; v != float64(cnt[k+1]) && v == float64(stamped[k+1]) {
+		if v := got.val[key]; v != float64(cntOn[k+1]) && v == float64(stampedOn[k+1]) {
 			// exactly the values whose context does not descend from a source value are missing
 			// (emitted on subscription / completion / error, or with a fresh context)
 			clause = "proc-time-missing-for-fresh-context"
-			what += fmt.Sprintf("; only the %d value(s) whose context descends from a source value were observed", stamped[k+1])
+			what += fmt.Sprintf("; only the %d value(s) whose context descends from a source value were observed", stampedOn[k+1])
 		}
-		want(clause, key, cnt[k+1], what)
+		want(clause, key, cntOn[k+1], what)
 	}
 	if cnt[0] > 0 {
 		e.Probe("values-in")
